@@ -11,7 +11,7 @@ Fixpoint size (e : expr) {struct e} : nat :=
   let sizes := fix sizes (l : list expr) : nat := match l with [] => O | x :: r => (size x + sizes r)%nat end in
   match e with
   | EBin _ x y => S (size x + size y)
-  | ENeg x | ENot x | EObj _ _ x | EAcc _ x => S (size x)
+  | ENeg x | ENot x | EObj _ _ x | EAcc _ x | EField x => S (size x)
   | EMenu _ x y => S (size x + size y)
   | ECall _ l | ELCall _ l | EList l | EPList l => S (sizes l)
   | _ => 1%nat
@@ -163,7 +163,7 @@ Fixpoint lists_even (e : expr) {struct e} : Prop :=
   let all := fix all (l : list expr) : Prop := match l with [] => True | x :: r => lists_even x /\ all r end in
   match e with
   | EBin _ x y => lists_even x /\ lists_even y
-  | ENeg x | ENot x => lists_even x
+  | ENeg x | ENot x | EField x => lists_even x
   | ECall _ l | ELCall _ l | EList l => all l
   | EPList l => Nat.even (length l) = true /\ all l
   | EObj _ _ x | EAcc _ x => lists_even x
@@ -312,6 +312,10 @@ Proof.
     rewrite (IHx Hx f rest ltac:(lia) Hr). reflexivity.
   - (* the <key property> *)
     intros n _ fuel rest Hf Hr. cbn [size] in Hf. fuelS fuel f. cbn [pp_tok strip filter app parse_u]. reflexivity.
+  - (* field <expression> *)
+    intros x IHx Hx fuel rest Hf Hr. cbn [size] in Hf. pose proof (size_pos x). fuelS fuel f.
+    cbn [pp_tok]. rewrite !strip_app. cbn [strip filter app parse_u].
+    rewrite (IHx Hx f rest ltac:(lia) Hr). reflexivity.
   - intros _. constructor.
   - intros x l IHx IHl [Hx Hl]. constructor; [exact (IHx Hx) | exact (IHl Hl)].
 Qed.
